@@ -81,8 +81,10 @@ def render(s, unknown=None, cdef=False):
     params, named, defaulted = sig_text(s)
     w = []
     w.append(PRELUDE)
+    # the default objects compare equal to everything (like unittest.mock.ANY): a default is recognized by identity, not by ==
+    w.append("class AnyObj(Obj):\n    def __eq__(self, other): return True\n    def __ne__(self, other): return False\n    def __hash__(self): return 7\n")
     for n in PO + PK + KO:
-        w.append("D_{0} = Obj('D_{0}')\n".format(n))
+        w.append("D_{0} = AnyObj('D_{0}')\n".format(n))
     # cdef: the contract callables declare *defaults* for the parameters they ask for; the call's value must win
     # cdef: False | True (defaults) | "kwonly" (the contract callables declare the names as KEYWORD-ONLY parameters) | "kwonly_default"
     dflt = "=WRONG" if cdef in (True, "kwonly_default") else ""
